@@ -1,4 +1,77 @@
-(* placeholder until the agent model lands: keeps the build target alive *)
-From Coq Require Import NArith.
-Theorem C02_placeholder : (0 = 0)%N. Proof. reflexivity. Qed.
-Print Assumptions C02_placeholder.
+(* C02 - every request gets exactly one correctly addressed response.  Statements only. *)
+From Coq Require Import NArith List Bool.
+From UPF Require Import Model.IPPool Model.Fteid Model.PortRange Model.Agent Proofs.AgentProofs.
+Import ListNotations.
+Open Scope N_scope.
+
+(* one reply at most (the output carries an [option reply]); each request type is answered by its own
+   response type; an Association Setup Request lacking a readable Node ID / Recovery Time Stamp is
+   dropped; response-type and unsupported messages are never answered *)
+Theorem C02_one_response_of_matching_type : forall burst a c connected m draws a' c' o,
+  handle burst a c connected m draws = Done (a', c', o) -> reply_matches m (o_reply o).
+Proof. exact handle_reply_matches. Qed.
+Print Assumptions C02_one_response_of_matching_type.
+
+(* the reply echoes the request's sequence number - for every 24-bit (indeed every) sequence number *)
+Theorem C02_same_sequence_number : forall burst a c connected d draws a' c' o rs,
+  handle_datagram burst a c connected d draws = Done (a', c', o, rs) ->
+  rs = match o_reply o with Some _ => Some (d_seq d) | None => None end.
+Proof.
+  intros burst a c connected d draws a' c' o rs H. unfold handle_datagram in H.
+  destruct (handle burst a c connected (d_msg d) draws) as [[[a1 c1] o1]|]; [|discriminate].
+  inversion H; subst; reflexivity.
+Qed.
+Print Assumptions C02_same_sequence_number.
+
+(* accepted establishment: Node ID present, UP F-SEID = a non-zero draw that no live session of the
+   association uses; the session is stored under it (so later requests addressed to it find it) with
+   the control plane's SEID, which is the SEID of the response header; one Created PDR per UP-chosen
+   F-TEID and per UPF-allocated UE address of the stored PDRs *)
+Theorem C02_accepted_establishment : forall burst a c nid cpf pdrs fars qers draws a' c' rseid n up cr cmds ms sd,
+  handle_est burst a c nid cpf pdrs fars qers draws = Done (a', c', Out (Some (REst rseid CAUSE_OK n up cr)) cmds ms sd) ->
+  exists l s, up = Some l /\ l <> 0 /\ In l draws /\ ~ In l (map s_lseid (c_sessions c)) /\
+              find_session l (c_sessions c') = Some s /\ s_lseid s = l /\ s_rseid s = rseid /\
+              cr = created_of (view (s_pdrs s)) /\ n = true /\ ms = [] /\ sd = false /\
+              a_gauge a' = a_gauge a + 1 /\ (exists v4, cpf = Some (IOk (rseid, v4))).
+Proof. exact est_accepted. Qed.
+Print Assumptions C02_accepted_establishment.
+
+(* establishment is refused (no resources) exactly when the first 100 draws are all zero or in use *)
+Theorem C02_seid_refused_iff : forall draws stored, (SEID_RETRIES <= length draws)%nat ->
+  (pick_seid SEID_RETRIES draws stored = None <-> forall d, In d (firstn SEID_RETRIES draws) -> d = 0 \/ mem_n d stored = true).
+Proof. intros; apply pick_seid_none_iff; assumption. Qed.
+Print Assumptions C02_seid_refused_iff.
+
+(* accepted modification / deletion carry the control plane's SEID of that session *)
+Theorem C02_accepted_modification_seid : forall burst a c seid cpf cp cf cq up uf uq rp rf rq a' c' o r,
+  handle_mod burst a c seid cpf cp cf cq up uf uq rp rf rq = Done (a', c', o) -> o_reply o = Some (RMod r CAUSE_OK) ->
+  exists s, find_session seid (c_sessions c') = Some s /\ s_rseid s = r /\ a_gauge a' = a_gauge a.
+Proof. exact mod_accepted_seid. Qed.
+Print Assumptions C02_accepted_modification_seid.
+
+Theorem C02_accepted_deletion_seid : forall a c seid s a' c' o,
+  find_session seid (c_sessions c) = Some s -> handle_del a c seid = (a', c', o) ->
+  (exists r, o_reply o = Some (RDel r CAUSE_OK)) -> o_reply o = Some (RDel (s_rseid s) CAUSE_OK).
+Proof. intros a c seid s a' c' o Hf H Hr. exact (proj2 (proj2 (proj2 (handle_del_accepted a c seid s a' c' o Hf H Hr)))). Qed.
+Print Assumptions C02_accepted_deletion_seid.
+
+(* requests naming an unknown session: rejection cause, SEID zero, nothing changes *)
+Theorem C02_unknown_session_modification : forall burst a c seid cpf cp cf cq up uf uq rp rf rq,
+  find_session seid (c_sessions c) = None ->
+  handle_mod burst a c seid cpf cp cf cq up uf uq rp rf rq = Done (a, c, just (RMod 0 CAUSE_REJ)).
+Proof. exact mod_unknown. Qed.
+Print Assumptions C02_unknown_session_modification.
+
+Theorem C02_unknown_session_deletion : forall a c seid,
+  find_session seid (c_sessions c) = None -> handle_del a c seid = (a, c, just (RDel 0 CAUSE_REJ)).
+Proof. exact del_unknown. Qed.
+Print Assumptions C02_unknown_session_deletion.
+
+(* non-vacuity: establishment with a CHOOSE F-TEID on an associated connection, adversarial draws 0,0,5 *)
+Example C02_nonvacuous :
+  let a := Agent (Cfg 100 200 true) None (Gen 0 []) 0 no_tables in
+  let pdr := PdrIE (IOk 1) (IOk 10) (IOk [PSrc (IOk 0); PFteid (IOk (true, 0, None))]) true (IOk 1) true [] in
+  exists a' c', handle (fun _ _ _ => 0) a (Conn 7 [] [] 0) true (MEst (Some (IOk 7)) (Some (IOk (77, Some 3))) [pdr] [] []) [0; 0; 5]
+                = Done (a', c', Out (Some (REst 77 CAUSE_OK true (Some 5) [CTeid 1 1 100]))
+                                    [Cmd MPdr true [1; 100; 1; 0; 0; 0; 0; 0; 255; 4294967295; 4294967295; 0; 0; 0; 0; 0] [1; 4294967285; 1; 5; 0; 0; 1]] [] false).
+Proof. eexists; eexists; vm_compute; reflexivity. Qed.
